@@ -84,7 +84,7 @@ func runC13(c *eng.Ctx, tier string) {
 		c.Undecided("R-C13-1", nil, 0, "post-publication changes of the active set", "fewer than 3 found")
 	}
 	// shutdown flush in the poller
-	if run := p.Method(setecPkg, "Store", "run"); run != nil {
+	if run := anchor(p, setecPkg, "(*Store).run"); run != nil {
 		ctxP := ctxParam(run)
 		n := 0
 		eng.Instrs(run, func(in ssa.Instruction) {
@@ -263,7 +263,7 @@ func c13NewStoreFlush(c *eng.Ctx, isFlush func(ssa.Instruction) bool) {
 		}
 		if v, isNil, isE := cond.ErrCheck(); isE && isNil {
 			if call, _ := eng.TupleCall(v); call != nil {
-				if cal := eng.Callee(&call.Call); cal != nil && cal.Name() == "initializeActive" {
+				if cal := eng.Callee(&call.Call); cal != nil && cal == anchor(p, setecPkg, "(*Store).initializeActive") {
 					initOK = true
 					continue
 				}
@@ -542,7 +542,7 @@ func c13BadCache(c *eng.Ctx) {
 		if cal == nil {
 			return
 		}
-		if reachesCacheRead(p, cal) || cal == unmFn || cal.Name() == "isActiveSetValid" || eng.CalleeIs(&call.Call, "encoding/json", "Unmarshal") {
+		if reachesCacheRead(p, cal) || cal == unmFn || cal == anchor(p, setecPkg, "(*Store).isActiveSetValid") || eng.CalleeIs(&call.Call, "encoding/json", "Unmarshal") {
 			cacheVals[call] = true
 		}
 	})
@@ -644,7 +644,7 @@ func c13BadCache(c *eng.Ctx) {
 	for _, f := range []*ssa.Function{ns, unmFn} {
 		eng.Instrs(f, func(in ssa.Instruction) {
 			if call, ok := in.(*ssa.Call); ok {
-				if cal := eng.Callee(&call.Call); cal != nil && cal.Name() == "isActiveSetValid" {
+				if cal := eng.Callee(&call.Call); cal != nil && cal == anchor(p, setecPkg, "(*Store).isActiveSetValid") {
 					valid, validFn = call, f
 				}
 			}
@@ -690,7 +690,7 @@ func reachesCacheRead(p *eng.Prog, f *ssa.Function) bool {
 // R-C13-6
 func c13Validity(c *eng.Ctx) {
 	p := c.P
-	f := p.Method(setecPkg, "Store", "isActiveSetValid")
+	f := anchor(p, setecPkg, "(*Store).isActiveSetValid")
 	if f == nil {
 		c.Undecided("R-C13-6", nil, 0, "setec.(*Store).isActiveSetValid", "anchor does not resolve")
 		return
